@@ -4561,6 +4561,25 @@ def add_segments(part, force_new=False):
         else:
             return
 
+    for segment, start, end in _make_segments(part):
+        part.add(segment, start, end)
+
+
+def _make_segments(part):
+    """
+    Compute the segments of a part from its repetition and
+    capo/fine/coda/segno directions without adding them to the part.
+
+    Parameters
+    ----------
+    part: part
+        A score part
+
+    Returns
+    -------
+    segments: list
+        A list of tuples (Segment, start time, end time) in order of time.
+    """
     boundaries = defaultdict(dict)
     destinations = defaultdict(list)
 
@@ -4748,6 +4767,7 @@ def add_segments(part, force_new=False):
                 segment_info[ss]["type"] = "leap_end"
 
     # clean up and ORDER all the jump destination information
+    segments = []
     for start_time in boundary_times[:-1]:
         destinations = segment_info[start_time]["to"]
         destinations_no_volta = [
@@ -4790,18 +4810,22 @@ def add_segments(part, force_new=False):
             destinations_volta + destinations_no_volta + destinations_navigation1
         )
 
-        part.add(
-            Segment(
-                id=segment_info[start_time]["ID"],
-                to=destinations_cleaned,
-                await_to=destinations_navigation2,  # await_to,
-                force_seq=segment_info[start_time]["force_full_sequence"],
-                type=segment_info[start_time]["type"],
-                info=", ".join(segment_info[start_time]["info"]),
-            ),
-            segment_info[start_time]["start"],
-            segment_info[start_time]["end"],
+        segments.append(
+            (
+                Segment(
+                    id=segment_info[start_time]["ID"],
+                    to=destinations_cleaned,
+                    await_to=destinations_navigation2,  # await_to,
+                    force_seq=segment_info[start_time]["force_full_sequence"],
+                    type=segment_info[start_time]["type"],
+                    info=", ".join(segment_info[start_time]["info"]),
+                ),
+                segment_info[start_time]["start"],
+                segment_info[start_time]["end"],
+            )
         )
+
+    return segments
 
 
 def get_segments(part):
@@ -5102,8 +5126,15 @@ def get_paths(part, no_repeats=False, all_repeats=False, ignore_leap_info=True):
         A list of path objects
 
     """
-    add_segments(part)
     segments = get_segments(part)
+    if len(segments) == 0:
+        # the part is not modified: its segments are computed, and linked to
+        # its time points, without being added to it (use `add_segments` or
+        # `Part.segments` for that)
+        for segment, start, end in _make_segments(part):
+            segment.start = part.get_point(start)
+            segment.end = part.get_point(end)
+            segments[segment.id] = segment
     paths = list()
     unfold_paths(
         Path([chr(65)], segments, no_repeats=no_repeats, all_repeats=all_repeats),
